@@ -4,6 +4,7 @@
 //   fresh <path>          remove + create the directory and make it current
 //   put <name> <size>     create a regular file of <size> bytes in the current directory
 //   dump <max>            write_all(current directory, <max>)   -> listing
+//   cfgcap                gpa::common::config::get_max_event_file_count()
 //   ls                    listing
 use gpa::proxy::authorization_rules::{AuthorizationRulesForLogging, ComputedAuthorizationRules};
 use std::io::{BufRead, Write};
@@ -42,6 +43,18 @@ pub fn main() {
                 std::fs::create_dir_all(&cur).unwrap();
                 serde_json::json!("ok")
             }
+            "symlink" => {
+                // foreign entry that cannot be stat()-ed: dangling link, or a loop (target = own name)
+                let _ = std::os::unix::fs::symlink(p[2], cur.join(p[1]));
+                serde_json::json!("ok")
+            }
+            "mkdir" => {
+                use std::os::unix::fs::PermissionsExt;
+                let d = cur.join(p[1]);
+                let _ = std::fs::create_dir_all(&d);
+                let _ = std::fs::set_permissions(&d, std::fs::Permissions::from_mode(u32::from_str_radix(p[2], 8).unwrap()));
+                serde_json::json!("ok")
+            }
             "put" => {
                 let size: usize = p[2].parse().unwrap();
                 std::fs::write(cur.join(p[1]), vec![b'p'; size]).unwrap();
@@ -53,6 +66,9 @@ pub fn main() {
                 serde_json::json!({"r": if r.is_ok() {"ok"} else {"panic"}, "ls": listing(&cur)})
             }
             "ls" => serde_json::json!({"r": "ok", "ls": listing(&cur)}),
+            // the cap provision::start_event_threads hands to event_logger::start: the real getter on
+            // the proxy-agent.json beside THIS executable (the check runs a private copy of the exe)
+            "cfgcap" => serde_json::json!({"cap": gpa::common::config::get_max_event_file_count()}),
             _ => serde_json::json!("bad command"),
         };
         let mut out = stdout.lock();
